@@ -70,7 +70,9 @@ var edits = []string{"none(identical list)", "other-resource-add", "other-resour
 	// a never-binding rule with the SAME statistic parameters as the unchanged rule is modified and moved in front of it
 	"stat-sharing-rule-modified-and-moved-before",
 	// ... or stands in front of it and is removed, or modified and moved behind it
-	"stat-sharing-rule-before-removed", "stat-sharing-rule-before-modified-and-moved-after"}
+	"stat-sharing-rule-before-removed", "stat-sharing-rule-before-modified-and-moved-after",
+	// ... or is new in the list (it must get a statistic of its own, not the unchanged rule's)
+	"stat-sharing-rule-added-after", "stat-sharing-rule-added-before"}
 
 // list layout helper: returns the positions of (inert rules, unchanged rule) for the stage
 //
@@ -86,6 +88,10 @@ func shareLayout(edit string, stage int) int {
 		return 3 * (1 - stage)
 	case "stat-sharing-rule-before-modified-and-moved-after": // [S, U] -> [U, S']
 		return 3 + stage
+	case "stat-sharing-rule-added-after": // [U] -> [U, S]
+		return stage
+	case "stat-sharing-rule-added-before": // [U] -> [S, U]
+		return 3 * stage
 	}
 	return 0
 }
@@ -113,7 +119,7 @@ func layout(edit string, stage int) (inertBefore, inertAfter int, dup bool, iner
 		return 0, stage, true, 0, 1
 	case "reorder":
 		return 1 - stage, stage, false, 0, 1
-	case "stat-sharing-rule-modified-and-moved-before", "stat-sharing-rule-before-removed", "stat-sharing-rule-before-modified-and-moved-after":
+	case "stat-sharing-rule-modified-and-moved-before", "stat-sharing-rule-before-removed", "stat-sharing-rule-before-modified-and-moved-after", "stat-sharing-rule-added-after", "stat-sharing-rule-added-before":
 		return 0, 0, false, 0, 1
 	}
 	return 0, 0, false, 0, 0
